@@ -124,7 +124,7 @@ PROPS["C01"] = {
              "optional field at its zero value, an Any, or text needing escapes / non-BMP runes. Distinct by hash(schema bytes, root, message bytes)."),
     "assumptions": ["the harness's reading of which proto shapes are oneof wrappers / exposed oneofs / flattened (j5ref) matches the documented annotations"],
     "lanes": [
-        lane("TestRaw", "raw", 1500, 6000, shards=16, must_classes=["msg:exposed-oneof-set", "msg:wrapper-oneof-set", "msg:map-of-messages", "schema:flatten", "schema:any", "schema:plain-oneof-named-type"]),
+        lane("TestRaw", "raw", 1500, 6000, shards=16, must_classes=["msg:exposed-oneof-set", "msg:wrapper-oneof-set", "msg:map-of-messages", "schema:flatten", "schema:any", "schema:plain-oneof-named-type", "msg:date-leap-century"]),
         lane("TestCompiled", "compiled", 250, 800, shards=16),
     ],
 }
@@ -192,7 +192,7 @@ PROPS["C03"] = {
     "lanes": [
         lane("TestSpelling", "spelling", 800, 4000, shards=16, must_classes=["var:bare-int64", "var:base64-url", "var:enum-with-prefix", "var:timestamp-offset", "var:explicit-null", "var:reorder"]),
         lane("TestFault", "fault", 800, 4000, shards=16, must_classes=["fault:two-keys-in-oneof", "fault:type-contradicts-key", "fault:type-contradicts-key:type-last", "fault:unknown-key", "fault:two-members-of-plain-oneof", "pos:array-element", "pos:map-value", "pos:oneof-arm"]),
-        lane("TestQuery", "query", 1500, 6000, shards=8, must_classes=["nested-path", "scalar-array"]),
+        lane("TestQuery", "query", 1500, 6000, shards=8, must_classes=["nested-path", "scalar-array", "list-shaped-element"]),
         lane("TestSpellingCompiled", "spelling-j5s", 200, 500, shards=16),
         lane("TestFaultCompiled", "fault-j5s", 200, 500, shards=16),
         lane("TestQueryCompiled", "query-j5s", 200, 500, shards=8),
@@ -209,7 +209,7 @@ PROPS["C10"] = {
                    "of a type overlap. The binary is built with -race (halt_on_error): any happens-before violation on executed accesses aborts the worker "
                    "and is attributed through the case journal; panics and deadlock (60 s) are failures; every call's result must equal the result of the "
                    "same call on a private codec run sequentially."),
-    "level_note": "The race detector sees only executed accesses; schedules are whatever the Go scheduler produces, not enumerated; the thorough tier runs its shards at GOMAXPROCS 2, 3, 4, 8 and 16 to vary them. A journalled case that killed the worker is re-run 25 times in a fresh process to confirm.",
+    "level_note": "The race detector sees only executed accesses; schedules are whatever the Go scheduler produces, not enumerated; the thorough tier runs its shards at GOMAXPROCS 2, 3, 4, 8 and 16 to vary them. A journalled case that killed the worker is replayed in up to 12 fresh processes (25 repetitions of the scenario in each) to confirm; the sequential model of a case is computed after its concurrent phase so that process-wide state is cold for the concurrent operations.",
     "rule": ("fresh/global: pgen Supported schema with a unique package per case, mgen messages, threads x ops drawn by rapid (50% of cases force every "
              "goroutine's first op onto the same type; 25% pre-warm one type). Non-trivial: >=2 goroutines start on the same type that the shared "
              "cache has never seen. Distinct by hash(roots, messages, op lists)."),
@@ -275,7 +275,7 @@ PROPS["C02"] = {
              "depth>=2 or a service with a path parameter. Distinct by hash of the rendered sources."),
     "assumptions": ["README: field numbers are 1-based declaration positions; inline types nest under their parent message named CamelCase(field) unless overridden; enum prefix defaults to SCREAMING_SNAKE(name)_"],
     "lanes": [
-        lane("TestContract", "contract", 400, 2000, shards=16, must_classes=["multi-file-package", "ref-cross-package", "inline-depth>=2", "path-parameter", "topic:reqres", "topic:upsert", "topic:event", "reqres-multi", "method-options", "service-options", "enum-explicit-zero", "inline-shadows-type", "inline-shadows-type:with-reference", "inline-name-override"]),
+        lane("TestContract", "contract", 400, 2000, shards=16, must_classes=["multi-file-package", "ref-cross-package", "inline-depth>=2", "path-parameter", "base-path-parameter", "topic:reqres", "topic:upsert", "topic:event", "reqres-multi", "method-options", "service-options", "enum-explicit-zero", "inline-shadows-type", "inline-shadows-type:with-reference", "inline-name-override"]),
         lane("TestMixed", "mixed", 300, 2000, shards=8, must_classes=["target:proto:object", "target:proto:enum", "target:other-package", "proto-uses-j5s", "import:alias", "import:file", "container:map"]),
     ],
 }
@@ -430,6 +430,6 @@ PROPS["C15"] = {
     "assumptions": ["APIFromImage is the export the property names; cases it rejects are discarded here and decided by C16/C18"],
     "lanes": [
         lane("TestJ5S", "j5s", 300, 2000, shards=16, must_classes=["multi-package"]),
-        lane("TestRaw", "raw", 600, 6000, shards=16, must_classes=["cross:1", "cross:2", "ann:enum-info", "ann:any", "ann:list-rules", "ann:repeated-rules", "ann:date-rules", "ann:key-id62"]),
+        lane("TestRaw", "raw", 600, 6000, shards=16, must_classes=["cross:1", "cross:2", "ann:enum-info", "ann:any", "ann:list-rules", "ann:repeated-rules", "ann:date-rules", "ann:key-id62", "enum-no-default"]),
     ],
 }
